@@ -148,8 +148,14 @@ def abort_walk(w, roots, api, bulk, how, n):
     times out on request n (how == "timeout").  Nothing is judged here; the
     NEXT complete walk on the same client must still be exact.
     """
-    oids = [OID(r) for r in roots]
-    strs = [rig.oid_s(r) for r in roots]
+    # a caller that keeps its root list and passes the SAME list object again on every
+    # walk with this client (a poller): the library must leave it alone
+    cache = w.__dict__.setdefault("_root_lists", {})
+    key = (tuple(roots), api.startswith("py"))
+    if key not in cache:
+        cache[key] = ([OID(r) for r in roots], [rig.oid_s(r) for r in roots])
+    oids, strs = cache[key]
+    before = (list(oids), list(strs))
     c, p = w.client, w.py
     if api == "multiwalk":
         agen = c.multiwalk(oids)
@@ -212,8 +218,13 @@ def run_walk(level, db, roots, api, bulk=None, policy=None, policy_seed=0, w=Non
         w.agent.requests.clear()
     truth = gen.truth_below(db, roots)
     w.seam.budget = 4 * (len(truth) + len(roots)) + 8 + 1 + 2
-    oids = [OID(r) for r in roots]
-    strs = [rig.oid_s(r) for r in roots]
+    # the same list objects on every walk with this client (see abort_walk)
+    cache = w.__dict__.setdefault("_root_lists", {})
+    key = (tuple(roots), api.startswith("py"))
+    if key not in cache:
+        cache[key] = ([OID(r) for r in roots], [rig.oid_s(r) for r in roots])
+    oids, strs = cache[key]
+    before = (list(oids), list(strs))
     c, p = w.client, w.py
     if api == "walk":
         agen = c.walk(oids[0])
@@ -235,6 +246,10 @@ def run_walk(level, db, roots, api, bulk=None, policy=None, policy_seed=0, w=Non
         return "budget", [], w
     except Exception as exc:  # noqa: BLE001
         return exc, [], w
+    finally:
+        if (list(oids), list(strs)) != before:
+            w.__dict__["_root_lists"].pop(key, None)
+            return ArgumentMutated("the caller's root list was changed by the walk: %r -> %r" % ([str(o) for o in before[0]], [str(o) for o in oids])), [], w
     ys = []
     if api.startswith("py"):
         for vb in rows:
@@ -249,6 +264,10 @@ def judge_py(ys, db, roots):
     """For pythonic walks compare pythonised values."""
     conv = {k: ("py", rig.pythonized(v)) for k, v in db.items()}
     return judge(ys, conv, roots)
+
+
+class ArgumentMutated(Exception):
+    """The library changed an argument object that belongs to the caller."""
 
 
 def boundary_cases():
